@@ -124,8 +124,9 @@ impl<'a> G<'a> {
         let mut form = self.form(op, asy);
         // Soundness rule (DESIGN 7.3): a hoisted capture used inside a (non-move) wrapper closure
         // must not be `Copy`, or the closure borrows it and the branch is not 'static under the
-        // task-spawning macros. Inline closures capture nothing and are `Copy`.
-        if cap.is_some() && self.in_wrapper > 0 && self.kind.is_spawn && self.kind.is_async {
+        // task-spawning macros (and not accepted by the harness' own `-> ft(ID)` callback, which
+        // boxes the future it is given as 'static). Inline closures capture nothing and are `Copy`.
+        if cap.is_some() && self.in_wrapper > 0 && self.kind.is_async {
             form = 0;
         }
         let alt = op.is_dot() && self.chance(0.3);
@@ -353,7 +354,9 @@ fn d4_sync_body(acts: &[Act]) -> Pin {
                 if inner.first().map(|x| x.op == Op::TokDot).unwrap_or(false) {
                     return Pin::Bad;
                 }
-                return Pin::Pinned;
+                if !inner.is_empty() {
+                    return Pin::Pinned;
+                }
             }
             (Some(_), Op::AndThen) => return Pin::Pinned,
             (Some(_), _) => {}
@@ -377,6 +380,8 @@ pub fn is_d4(p: &Prog) -> bool {
                     (Some(inner), Op::OrElse) | (Some(inner), Op::MapErr) => {
                         if inner.first().map(|x| x.op == Op::TokDot).unwrap_or(false) {
                             Pin::Bad
+                        } else if inner.is_empty() {
+                            Pin::Open
                         } else {
                             Pin::Pinned
                         }
